@@ -143,8 +143,9 @@ def evaluate(work, corr, cases):
     for i, c in enumerate(cases):
         # re-number so that ids are unique across runs/modes of one family
         c['_term'] = re.sub(r'^\(\d+%N', '(%d%%N' % i, c['coq'], 1)
-    shards = [(work, corr, k // SHARD, [c['_term'] for c in cases[k:k + SHARD]])
-              for k in range(0, len(cases), SHARD)]
+    sz = max(8, min(SHARD, -(-len(cases) // 16)))
+    shards = [(work, corr, k // sz, [c['_term'] for c in cases[k:k + sz]])
+              for k in range(0, len(cases), sz)]
     M, O = [], []
     with ThreadPoolExecutor(max_workers=16) as ex:
         for (mm, oo, err), sh in zip(ex.map(eval_shard, shards), shards):
